@@ -777,7 +777,7 @@ impl Prop for C09 {
         let grid_cases = ctx.stats.borrow().evaluations;
         ctx.extra_add("grid_cases", grid_cases);
         // ---- random
-        let cases = ctx.tier.pick(40_000u32, 900_000u32);
+        let cases = ctx.tier.pick(40_000u32, 600_000u32);
         ctx.run_bytes("rand", cases, 200, |ctx, bytes| {
             let case = gen_case(bytes);
             let fails = check_case(ctx, &mut sut.borrow_mut(), &case);
